@@ -2,10 +2,13 @@
 (* Model-checking instances of SchemaAgree.tla (X01, schema agreement). *)
 EXTENDS SchemaAgree
 
-\* every driver action occurs (vacuity guard; each must be reachable = TLC must violate "never")
-Never_nil == res # "nil"
-Never_disagree == res # "disagree"
-Never_ctx == res # "ctx"
-Never_ddlerr == res # "ddlerr"
-Never_nullrow_agreement == ~(res = "nil" /\ \E p \in Peers : last.rows[p].kind = "nullver")
+\* reachability (vacuity guard): TLC must VIOLATE each of these
+Never_nil == A.res # "nil"
+Never_disagree == A.res # "disagree"
+Never_ctx == A.res # "ctx"
+Never_ddlerr == A.res # "ddlerr"
+Never_nullrow_agreement == ~(A.res = "nil" /\ \E p \in Peers : A.last.rows[p].kind = "nullver")
+Never_invalidrow_agreement == ~(A.res = "nil" /\ \E p \in Peers : A.last.rows[p].kind = "invalid" /\ A.last.rows[p].ver # A.last.lver)
+Never_failed_then_nil == ~(A.res = "nil" /\ A.fails > 0)
+Never_ddl_nil == ~(A.res = "nil" /\ A.kind = "ddl")
 =============================================================================
